@@ -18,6 +18,7 @@ import (
 	"regexp"
 	"strconv"
 	"strings"
+	"syscall"
 	"testing"
 	"time"
 )
@@ -225,7 +226,14 @@ func w13Supervise(t *testing.T, test string) bool {
 		vFlush()
 		os.Exit(3)
 	}
-	// the process died: a goroutine of the server panicked outside any connection handler
+	if big, oom := w13OOM(head, stack); oom && !big {
+		// memory exhaustion without an oversized request: accumulated harness state, not a verdict
+		fmt.Printf("VERIF-INCONCLUSIVE C13 child ran out of memory (%s)\n", head)
+		vFlush()
+		os.Exit(3)
+	}
+	// the process died: a goroutine of the server panicked outside any connection handler (or hit a
+	// fatal error inside one)
 	key := w13BackgroundKey(stack)
 	var c w13Case
 	b, rerr := os.ReadFile(inflight)
@@ -241,13 +249,50 @@ func w13Supervise(t *testing.T, test string) bool {
 	}
 	rep, rkey, _ := w13ReplayIsolated(&c)
 	note := "the case in flight reproduces the crash in an isolated process"
-	if !rep {
+	if strings.Contains(stack, "server.(*Server).handle(") && !rep {
+		// only the connection of the case in flight has a live handler goroutine
+		note = "the dying goroutine is the connection handler of the case in flight"
+	} else if !rep {
 		note = "the case in flight does NOT reproduce the crash in isolation (the crash may stem from background activity of an earlier case)"
 	} else if rkey != key {
 		note += " (as " + rkey + ")"
 	}
 	vFail(t, test, key, &c, "a goroutine of the server crashed the process: %s; %s\n%s", head, note, w13Head(stack, 30))
 	return true
+}
+
+var w13MallocRe = regexp.MustCompile(`runtime\.(?:mallocgc|makeslice|growslice)\((0x[0-9a-f]+)`)
+
+// w13OOM: did the process die of memory exhaustion, and if so, was the failing request itself
+// oversized (>= 256 MiB, i.e. driven by a length field of the input)?
+func w13OOM(head, stack string) (big bool, oom bool) {
+	if !strings.Contains(head, "out of memory") && !strings.Contains(head, "cannot allocate memory") {
+		return false, false
+	}
+	if m := w13MallocRe.FindStringSubmatch(stack); m != nil {
+		if n, err := strconv.ParseUint(m[1], 0, 64); err == nil && n >= 1<<28 {
+			return true, true
+		}
+	}
+	return false, true
+}
+
+// w13LimitAddressSpace lowers RLIMIT_AS of this process (never raises it) so that an allocation whose
+// size comes from a length field of the input fails the same way everywhere.
+func w13LimitAddressSpace(mb int) {
+	var cur syscall.Rlimit
+	if mb <= 0 || syscall.Getrlimit(syscall.RLIMIT_AS, &cur) != nil {
+		return
+	}
+	want := uint64(mb) << 20
+	if cur.Cur != ^uint64(0) && cur.Cur <= want {
+		return
+	}
+	lim := syscall.Rlimit{Cur: want, Max: cur.Max}
+	if cur.Max != ^uint64(0) && cur.Max < want {
+		lim.Cur = cur.Max
+	}
+	_ = syscall.Setrlimit(syscall.RLIMIT_AS, &lim)
 }
 
 func w13Head(s string, n int) string {
@@ -306,6 +351,9 @@ func w13ReplayIsolated(c *w13Case) (reproduced bool, key string, msg string) {
 		}
 	}
 	if head, stack, crashed := w13CrashTail(out); crashed {
+		if big, oom := w13OOM(head, stack); oom && !big {
+			return false, "", "inconclusive: child ran out of memory: " + head
+		}
 		return true, w13BackgroundKey(stack), fmt.Sprintf("a goroutine of the server crashed the process: %s\n%s", head, w13Head(stack, 30))
 	}
 	return false, "", fmt.Sprintf("child ended with %v and no result: %s", rerr, w13Head(out, 20))
@@ -325,6 +373,7 @@ func TestC13_ChildExec(t *testing.T) {
 	if err != nil {
 		t.Fatalf("cannot read case: %v", err)
 	}
+	w13LimitAddressSpace(vEnvInt("VERIF_C13_CHILD_AS_MB", 3072))
 	info, fail := w13RunCase(&c)
 	// give timers and executors of the instance the chance to act on what the case left behind
 	time.Sleep(time.Duration(vEnvInt("VERIF_C13_CHILD_LINGER_MS", 400)) * time.Millisecond)
